@@ -5,7 +5,8 @@ import GqlProofs.ExecState
 
 The algorithm S forces a deferred value where it meets it; M wraps it (`PVal.deferred`) and forces it later. `SV x j` relates a
 value under construction to the algorithm's finished value: same shape, and a closure stands for `j` when the algorithm's in-place
-forcing of what the closure will call yields `j` — or fails under a nullable type, and `j` is null (`Wit`). Outside the known finding
+forcing of what the closure will call yields `j` — or fails under a nullable type, and `j` is null (`Wit`); what the closure calls
+may itself yield a func: the algorithm goes on forcing in place, M's dethunk sites loop (`forceLoop`). Outside the known finding
 D-04c (no mark added to `kfThunk`) phase one of M (memo-free instance) produces `SV`-related values (`GenP`).
 
 Fuel: S's witness runs are lifted to the request's fuel `F` (more fuel, same result), because M forces every closure with `F`. -/
@@ -79,7 +80,6 @@ def Wit (cl : Closure) (j : JVal) : Prop :=
   (∀ x ∈ cl.fp.nodes, NodeOK c pv rank x.1 x.2) ∧
   match cl.r with
   | some (.ok v) =>
-    flatV v = true ∧ funcOf v = none ∧
     ∃ fname st rS stS, complete c F true cl.t cl.rt fname cl.fp.fieldNodes cl.path v st = (rS, stS) ∧
       stS.kfThunk = st.kfThunk ∧ (rS = .ok j ∨ (rS = .fail ∧ cl.t.isNonNull = false ∧ j = .null))
   | _ => cl.t.isNonNull = false ∧ j = .null
@@ -155,11 +155,11 @@ structure GenP (fuel : Nat) : Prop where
     | .ok j => ∃ x, (mField c alt0 fuel dfr rt src p fid fp fd mst).1 = .ok x ∧ SV c pv rank F x j
     | .fail => (mField c alt0 fuel dfr rt src p fid fp fd mst).1 = .fail
     | .fuelOut => False
-  complete : ∀ dfr t rt fname fid fp p v st mst rS stS, (∀ x ∈ fp.nodes, NodeOK c pv rank x.1 x.2) → flatV v = true →
+  complete : ∀ dfr t rt fname fid fp p v st mst rS stS, (∀ x ∈ fp.nodes, NodeOK c pv rank x.1 x.2) →
     complete c fuel dfr t rt fname fp.fieldNodes p v st = (rS, stS) → rS ≠ .fuelOut → stS.kfThunk = st.kfThunk →
     CompleteRel c pv rank F t v rS (mComplete c alt0 fuel dfr t rt fid fp p v mst).1
   items : ∀ dfr item rt fname fid fp p xs i accS acc st mst rS stS, (∀ x ∈ fp.nodes, NodeOK c pv rank x.1 x.2) →
-    flatVs xs = true → SVl c pv rank F acc accS →
+    SVl c pv rank F acc accS →
     completeItems c fuel dfr item rt fname fp.fieldNodes p xs i accS st = (rS, stS) → rS ≠ .fuelOut → stS.kfThunk = st.kfThunk →
     match rS with
     | .ok js => ∃ ys, (mItems c alt0 fuel dfr item rt fid fp p xs i acc mst).1 = .ok ys ∧ SVl c pv rank F ys js
@@ -174,9 +174,9 @@ theorem genP_zero : GenP c pv rank F 0 := by
     simp only [execGroups, Prod.mk.injEq] at h; exact absurd h.1.symm hr
   · intro dfr rt src p fid fp fd st mst rS stS _ _ h hr _
     simp only [execField, Prod.mk.injEq] at h; exact absurd h.1.symm hr
-  · intro dfr t rt fname fid fp p v st mst rS stS _ _ h hr _
+  · intro dfr t rt fname fid fp p v st mst rS stS _ h hr _
     simp only [complete, Prod.mk.injEq] at h; exact absurd h.1.symm hr
-  · intro dfr item rt fname fid fp p xs i accS acc st mst rS stS _ _ _ h hr _
+  · intro dfr item rt fname fid fp p xs i accS acc st mst rS stS _ _ h hr _
     simp only [completeItems, Prod.mk.injEq] at h; exact absurd h.1.symm hr
 
 end gen
